@@ -202,8 +202,11 @@ def run(ctx):
     ok = bool(hs) and astq.handler_type_names(hs[0]) == ["zlib.error"]
     if ok:
         # trailing garbage after a complete member is tolerated; an error in the first member re-raises
-        body_txt = astq.text(hs[0])
-        ok = "if previous_state == GzipDecoderState.OTHER_MEMBERS:" in body_txt and body_txt.rstrip().endswith("raise")
+        prev = set(astq.assigned_from(gz.node, lambda v: astq.text(v) == "self._state"))
+        conds = [n_ for n_ in ast.walk(hs[0]) if isinstance(n_, ast.If) and isinstance(n_.test, ast.Compare) and astq.text(n_.test.left) in prev
+                 and astq.text(n_.test.comparators[0]) == "GzipDecoderState.OTHER_MEMBERS" and isinstance(n_.test.ops[0], ast.Eq)]
+        last = hs[0].body[-1]
+        ok = len(conds) == 1 and isinstance(last, ast.Raise) and last.exc is None and all(isinstance(x, ast.Return) for x in conds[0].body[-1:])
     ctx.ob(R4, gz.qual, "a zlib error in the first gzip member propagates (only trailing garbage after a complete member is ignored)", ok)
 
     # the tolerant state may only be entered once a complete member was followed by more data
@@ -247,10 +250,13 @@ def run(ctx):
     R5 = ctx.rule("C13-R5", "conflicting Content-Length values raise InvalidHeader; with chunked transfer-encoding the length is ignored", "E5 on _init_length")
     il = m.method(HR, "_init_length")
     txt = astq.text(il.node)
-    g = [n_ for n_ in astq.walk_fn(il.node) if isinstance(n_, ast.If) and astq.text(n_.test) == "len(lengths) > 1"]
+    lset = set(astq.assigned_from(il.node, lambda v: isinstance(v, ast.SetComp)))
+    g = [n_ for n_ in astq.walk_fn(il.node) if isinstance(n_, ast.If) and isinstance(n_.test, ast.Compare) and isinstance(n_.test.ops[0], ast.Gt)
+         and astq.text(n_.test.comparators[0]) == "1" and isinstance(n_.test.left, ast.Call) and astq.call_text(n_.test.left) == "len" and astq.text(n_.test.left.args[0]) in lset]
     ok = bool(g) and astq.all_paths_end_in(g[0].body, lambda s: isinstance(s, ast.Raise) and "InvalidHeader" in astq.text(s.exc))
     ctx.ob(R5, il.qual, "more than one distinct Content-Length value raises InvalidHeader", ok)
-    ok = "lengths = {int(val) for val in content_length.split(',')}" in txt.replace('"', "'")
+    comps = [n_.value for n_ in astq.walk_fn(il.node) if isinstance(n_, ast.Assign) and isinstance(n_.value, ast.SetComp)]
+    ok = bool(comps) and isinstance(comps[0].elt, ast.Call) and astq.call_text(comps[0].elt) == "int" and ".split(','" in astq.text(comps[0].generators[0].iter).replace('"', "'")
     ctx.ob(R5, il.qual, "values are compared as integers (set of int)", ok)
     # InvalidHeader must not be swallowed by the surrounding except ValueError
     inv = m.classes.get("urllib3.exceptions.InvalidHeader")
@@ -259,8 +265,10 @@ def run(ctx):
     g2 = [n_ for n_ in astq.walk_fn(il.node) if isinstance(n_, ast.If) and astq.text(n_.test) == "self.chunked"]
     ok = bool(g2) and any(isinstance(s, ast.Return) and isinstance(s.value, ast.Constant) and s.value.value is None for s in g2[0].body)
     ctx.ob(R5, il.qual, "chunked responses ignore Content-Length (length None)", ok)
-    g3 = [n_ for n_ in astq.walk_fn(il.node) if isinstance(n_, ast.If) and astq.text(n_.test) == "length < 0"]
-    ok = bool(g3) and any(astq.text(s_) == "length = None" for s_ in g3[0].body)
+    ret_names = {astq.text(r_.value) for r_ in astq.walk_fn(il.node) if isinstance(r_, ast.Return) and isinstance(r_.value, ast.Name)}
+    g3 = [n_ for n_ in astq.walk_fn(il.node) if isinstance(n_, ast.If) and isinstance(n_.test, ast.Compare) and isinstance(n_.test.ops[0], ast.Lt)
+          and astq.text(n_.test.comparators[0]) == "0" and astq.text(n_.test.left) in ret_names]
+    ok = bool(g3) and any(isinstance(s_, ast.Assign) and astq.text(s_.targets[0]) == astq.text(g3[0].test.left) and astq.text(s_.value) == "None" for s_ in g3[0].body)
     ctx.ob(R5, il.qual, "a negative length is treated as unknown", ok)
 
     # ------------------------------------------------------------------ R6 shared with C01-R6
@@ -312,7 +320,9 @@ def run(ctx):
     ctx.ob(R8, rq.qual, "request() stores it in the response options", ok)
     gr = m.method(f"{CN}.HTTPConnection", "getresponse")
     c = [x for x in astq.calls(gr.node) if astq.call_text(x) == "HTTPResponse"]
-    ok = bool(c) and astq.text(astq.kwarg(c[0], "enforce_content_length")) == "resp_options.enforce_content_length"
+    kv = astq.kwarg(c[0], "enforce_content_length") if c else None
+    ok = kv is not None and isinstance(kv, ast.Attribute) and kv.attr == "enforce_content_length" \
+        and any(astq.text(x) == "self._response_options" for x in astq.sources_of(gr.node, kv.value))
     ctx.ob(R8, gr.qual, "getresponse() builds the response with the stored option", ok)
     st_ = [n_ for n_ in astq.walk_fn(m.method(HR, "__init__").node) if isinstance(n_, ast.Assign) and astq.text(n_.targets[0]) == "self.enforce_content_length"]
     ctx.ob(R8, f"{HR}.__init__", "the response keeps the option it was given", bool(st_) and astq.text(st_[0].value) == "enforce_content_length")
